@@ -328,7 +328,122 @@ var knownLineCases = [][8]uint64{
 	{0x40548c64cf9b9b90, 0x4055181aa4e372be, 0xc159a4fdc6602b20, 0x40548c64cf9b9b90, 0x4055181aa4dbe2de, 0xc159a4fdc6602b20, 35, 1},
 }
 
+// evLineLong: a long segment in general position (see Line.tla, LineLongAccept).
+func evLineLong(t *Tracer, lon0, lat0, alt0, lon1, lat1, alt1 float64, H, V int64) {
+	p0, err0 := object.NewPoint(lon0, lat0, alt0)
+	p1, err1 := object.NewPoint(lon1, lat1, alt1)
+	if err0 != nil || err1 != nil {
+		return
+	}
+	ends, err := shape.GetExtendedSpatialIdsOnPoints([]*object.Point{p0, p1}, H, V)
+	if err != nil || len(ends) != 2 {
+		return
+	}
+	sv, ok0 := ParseExt(ends[0])
+	ev, ok1 := ParseExt(ends[1])
+	if !ok0 || !ok1 {
+		return
+	}
+	o, res := guard(func() (any, error) { return shape.GetExtendedSpatialIdsOnLine(p0, p1, H, V) })
+	e := absW.ev("LineLong", map[string]any{"end": relArr(ev, sv),
+		"p0": hexTriple(lon0, lat0, alt0), "p1": hexTriple(lon1, lat1, alt1), "H": H, "V": V})
+	e.O = o
+	e.Real = map[string]any{"start": ends[0], "end": ends[1]}
+	e.R = []any{}
+	e.A["off"] = []any{}
+	if o != "ok" {
+		e.Bad = "outcome " + o
+		t.Emit(e, true)
+		return
+	}
+	a := [3]float64{p0.Lon(), p0.Lat(), p0.Alt()}
+	d := [3]float64{p1.Lon() - a[0], p1.Lat() - a[1], p1.Alt() - a[2]}
+	meets := func(id ID) bool {
+		lo := [3]float64{gammaLon(id.X, H), gammaLat(id.Y+1, H), gammaAlt(id.F, V)}
+		hi := [3]float64{gammaLon(id.X+1, H), gammaLat(id.Y, H), gammaAlt(id.F+1, V)}
+		t0, t1 := 0.0, 1.0
+		for i := 0; i < 3; i++ {
+			eps := 0.002*(hi[i]-lo[i]) + 1e-12
+			l, h := lo[i]-eps, hi[i]+eps
+			if d[i] == 0 {
+				if a[i] < l || a[i] > h {
+					return false
+				}
+				continue
+			}
+			ta, tb := (l-a[i])/d[i], (h-a[i])/d[i]
+			if ta > tb {
+				ta, tb = tb, ta
+			}
+			t0, t1 = math.Max(t0, ta), math.Min(t1, tb)
+		}
+		return t0 <= t1
+	}
+	sg := func(v int64) int64 {
+		if v > 0 {
+			return 1
+		}
+		if v < 0 {
+			return -1
+		}
+		return 0
+	}
+	dir := relArr(ev, sv)
+	type item struct {
+		rel  []int64
+		prog int64
+	}
+	var items []item
+	off := []any{}
+	for _, s := range strs(res) {
+		id, ok := ParseExt(s)
+		if !ok || id.H != H || id.V != V {
+			e.Bad = "malformed or wrong zoom: " + s
+			continue
+		}
+		rel := relArr(id, sv)
+		if !meets(id) {
+			off = append(off, rel)
+		}
+		items = append(items, item{rel, sg(dir[0])*rel[0] + sg(dir[1])*rel[1] + sg(dir[2])*rel[2]})
+	}
+	sort.SliceStable(items, func(i, j int) bool { return items[i].prog < items[j].prog })
+	out := make([]any, len(items))
+	for i, it := range items {
+		out[i] = it.rel
+	}
+	if len(off) > 20 {
+		off = off[:20]
+	}
+	e.R, e.A["off"] = out, off
+	t.Emit(e, true)
+}
+
+// driveLongOblique: long segments in general position, in pairs between the same two end voxels (the
+// second leg enters and leaves the end voxels at other places, so it runs about a voxel beside the first)
+func driveLongOblique(t *Tracer, r Rng, k int) {
+	for i := 0; i < k; i++ {
+		H, V := r.In(20, 27), r.In(20, 27)
+		nh := float64(int64(1) << uint(H))
+		n := float64(r.Pick(1100, 1500, 2500, 4100, 4500, 6000))
+		x0 := math.Floor(nh*0.1 + r.Float64()*nh*0.8)
+		y0 := math.Floor(nh*0.2 + r.Float64()*nh*0.6)
+		f0 := math.Floor(r.Float64()*200 - 100)
+		a, b, c := 0.1+r.Float64(), 0.1+r.Float64(), 0.1+r.Float64()
+		s := n / (a + b + c)
+		sg := func() float64 { return float64(r.Pick(-1, 1)) }
+		dx, dy, df := math.Round(sg()*a*s), math.Round(sg()*b*s), math.Round(sg()*c*s)
+		for leg := 0; leg < 2; leg++ {
+			u, w2 := 0.1+0.8*r.Float64(), 0.1+0.8*r.Float64() // position inside the end voxels
+			lon0, lat0, alt0 := realCoord(x0+u, y0+w2, f0+u, H, V)
+			lon1, lat1, alt1 := realCoord(x0+dx+w2, y0+dy+u, f0+df+w2, H, V)
+			evLineLong(t, lon0, lat0, alt0, lon1, lat1, alt1, H, V)
+		}
+	}
+}
+
 func driveLongLines(t *Tracer, r Rng, k int) {
+	driveLongOblique(t, r, 2+k/5)
 	for i := 0; i < k; i++ {
 		// lengths around the powers of two where an implementation might switch strategy, and beyond
 		n := r.Pick(1023, 1024, 1025, 2047, 2048, 2049, 4095, 4096, 4097, 8191, 8192, 8193, r.In(1000, 12000), r.In(4097, 9000))
